@@ -105,7 +105,7 @@ set_option maxHeartbeats 1000000 in
 theorem stepLocal_rem (F : Flags) (o : Obs) (x : Act) (ev : Ev) (y : Act) (eff : Eff)
     (h : stepLocal F o x ev = some (y, eff)) : rem y < rem x := by
   steplocal_cases h
-  all_goals (try (simp_all [rem, preW, loopW, Act.stop]; done))
+  all_goals (try (simp_all [rem, preW, loopW, Act.stop, Act.stopDeps]; done))
   all_goals (try (simp_all [rem, preW, loopW]; omega))
   -- guardsPassed
   · rename_i hp _
